@@ -156,6 +156,10 @@ def fam_lifecycle():
     out.append({"threads": {"app1": [["schedule", 1, 1], ["stop"], ["start"], ["stop"], ["join"]]}, "emit": {"1": [1]}})
     out.append({"threads": {"app1": [["start"], ["schedule", 1, 1], ["unschedule", 1], ["schedule", 1, 1], ["stop"], ["stop"],
                                      ["join"]]}, "emit": {"1": [1]}})
+    # start() twice: the second call raises; the observer keeps running with its emitters
+    out.append({"threads": {"app1": [["schedule", 1, 1], ["start"], ["start"], ["probe"], ["stop"], ["join"]]}, "emit": {"1": [1, 2]}})
+    out.append({"threads": {"app1": [["schedule", 1, 1], ["schedule", 2, 2], ["start"], ["probe"], ["stop"], ["join"]],
+                            "app2": [["start"]]}, "emit": {"1": [1], "2": [1]}})
     return out
 
 
@@ -174,7 +178,8 @@ SEQ_OPS = ([["schedule", h, w] for h in (1, 2) for w in (1, 2)] + [["unschedule"
 
 
 def _valid(seq):
-    """Sequentially valid call sequences (no call that must raise), tracked on the reference map itself."""
+    """Sequentially valid call sequences (no call that must raise - except a repeated start() on a running observer,
+    which raises RuntimeError and must leave everything as it was), tracked on the reference map itself."""
     reg = {}
     started = stopped = False
     for op in seq:
@@ -196,7 +201,7 @@ def _valid(seq):
         elif k == "unschedule_all":
             reg = {}
         elif k == "start":
-            if started:
+            if started and stopped:
                 return False
             started = True
         elif k == "stop":
